@@ -200,7 +200,7 @@ var specs = map[string]spec{
 		Rule:      "states = thread-operation scenarios (ordered pairs/triples of operations) + solo operations; transitions = complete schedules executed (counter schedules) + digested solo steps; every scenario is non-trivial (>=2 threads contend for the same compiled bundle)",
 		Bounds: map[string]string{
 			"quick":    "12 operations; all 144 ordered pairs on 2 threads; every schedule with <=1 preemption at every 4th yield point (every point inside a critical section) and <=2 preemptions at every 32nd (48th / 96th when one / both operations compile a bundle); a non-canonical successor at a blocking switch counts as a deviation; solo digest every third step; race pass 144 scenarios x 3 goroutines x 30 cold starts",
-			"thorough": "3 threads; every schedule with <=1 preemption at every instrumented point and <=2 preemptions at every 12th (each capped at 2000000 schedules per worker and scenario); race pass x 200 cold starts",
+			"thorough": "3 threads; every schedule with <=1 preemption at every instrumented point (every 4th when an operation compiles a bundle) and <=2 preemptions at every 12th (96th / 192nd with one / more compiling operations), each capped at 2000000 schedules per worker and scenario; scenarios are started until the 50-minute soft deadline (then exhaustive:false); race pass x 200 cold starts",
 		},
 		Assumptions: commonAssumptions, Plain: true, QuickStride: 1, ThoroughStride: 1, QuickDeadline: 420, ThoroughDeadline: 3000, Race: true, OrderSensitive: true,
 	},
